@@ -21,7 +21,7 @@ N_mid == {"m", "cm", "km", "nm", "kg", "g", "s", "ms", "min", "h", "A", "mA", "K
 N_small == {"m", "cm", "km", "kg", "g", "s", "min", "h", "mol", "mmol", "molar", "K", "mA"}
 N_q7 == {"m", "km", "s", "h", "mol", "mmol", "g"}
 N_tiny == {"m", "km", "s", "h", "mol", "mmol"}
-N_dimless == {"m", "km", "s", "min", "mol", "umol", "K"}
+N_dimless == {"m", "km", "s", "min", "K"}
 N_base == {"m", "kg", "s", "A", "K", "mol"}
 N_basepref == {"km", "g", "min", "mA", "K", "mmol"}
 
@@ -61,14 +61,14 @@ Plan_hist3 == <<{"convert", "via", "scale", "incompatible"}, {"convert", "scale"
 Plan_hist3q == <<{"convert", "via", "scale"}, {"scale", "container", "via"}, {"back", "container", "incompatible"}>>
 Plan_hist3t == <<{"convert", "via", "scale"}, {"scale", "convert", "via"}, {"back", "container", "incompatible"}>>
 Plan_hist2 == <<{"convert", "via", "scale"}, {"back", "container", "incompatible"}>>
-Plan_reg == <<{"dimensionality", "defunit", "unitless"}>>
+Plan_reg == <<{"dimensionality", "defunit", "unitless", "unitof"}>>
 Plan_derived == <<{"derived", "roundtrip"}>>
 Plan_help3 == <<{"convert"}, {"scale"}, {"helper"}>>
-Plan_help2 == <<{"convert", "scale"}, {"helper"}>>
-Plan_plain == <<{"plain"}>>
-Plan_bexp == <<{"bexp"}>>
+Plan_help2 == <<{"convert", "scale"}, {"helper", "unitof"}>>
+Plan_plain == <<{"plain", "incompatible"}>>
+Plan_bexp == <<{"bexp", "strip"}>>
 Plan_inv2 == <<{"convert", "via", "scale", "incompatible", "dimensionality"},
-               {"convert", "back", "scale", "container", "unitless", "defunit", "derived", "roundtrip", "bexp", "helper"}>>
+               {"convert", "back", "scale", "container", "unitless", "defunit", "derived", "roundtrip", "helper", "unitof", "strip"}>>
 Plan_inv == <<{"convert", "via", "scale", "incompatible", "container", "dimensionality"},
               {"convert", "via", "scale", "back", "unitless", "defunit"},
               {"convert", "back", "scale", "helper", "bexp", "derived", "roundtrip"}>>
